@@ -53,3 +53,12 @@ Theorem C11_regenerated_check_dominates_sound : forall W r1 r2,
   forall z, inbox r1 z -> exists z', inbox r2 z' /\ dominates W z z' = true.
 Proof. intros W r1 r2 H1 H2 H3 H4 H5. rewrite gen_check_dominates_is_model in H5. exact (check_dominates_sound W r1 r2 H1 H2 H3 H4 H5). Qed.
 Print Assumptions C11_regenerated_check_dominates_sound.
+
+(* the regenerated dispatcher of the pessimistic comparison: rectangles go to RectangularConfidenceRegion.check_dominates; the
+   comparison is not defined for ellipsoids (raises) *)
+From VOPy Require ExtraRefine4.
+From VOPyGen Require Gen_extra4.
+Theorem C11_pessimistic_comparison_is_the_rectangle_routine : forall (A : Type) (rect ell : A),
+  Gen_extra4.gen_dispatch A rect ell Gen_extra4.RectRegion = Some rect /\ Gen_extra4.gen_ell_check_dominates_defined = false.
+Proof. intros. split; reflexivity. Qed.
+Print Assumptions C11_pessimistic_comparison_is_the_rectangle_routine.
